@@ -341,7 +341,7 @@ def _reduce_one(job):
 
 
 def run(ctx):
-    nmods = 1 if ctx.quick else 16
+    nmods = 1 if ctx.quick else 8
     ctx.pmap(_shard, [(ctx.seed, s, nmods) for s in range(8 if ctx.quick else 16)])
     findings = harness.load_findings()
     firsts = {}
